@@ -266,7 +266,8 @@ class AbstractGinGameState:
             self._check_wall()
 
         self.turns += 1
-        if self.hit_max_turns():
+        if self.hit_max_turns() and not self.is_complete:
+            # a gin made on the last permitted turn still counts as gin
             self.end_game(RummyEndGame.WALL, 0, 0)
             return
 
